@@ -104,6 +104,22 @@ def call_entry(ep, data, mode, ctx):
                 res = list(artifact.iter_artifactkit_payloads(io.BytesIO(data)))
             elif ep == "parse_raw_http":
                 res = c2.parse_raw_http(data)
+            elif ep.endswith(":file"):
+                # the same helpers on a regular file (positions beyond what the file system supports, allocation of the
+                # requested read size): a 2 GiB address-space limit makes an attempt to allocate a claimed 4 GiB visible
+                import resource
+
+                fd, tmp = tempfile.mkstemp(prefix="vf_c08_")
+                os.write(fd, data)
+                os.close(fd)
+                soft, hard = resource.getrlimit(resource.RLIMIT_AS)
+                resource.setrlimit(resource.RLIMIT_AS, (2 << 30, hard))
+                try:
+                    with open(tmp, "rb") as fh:
+                        name = ep[: -len(":file")]
+                        res = list(artifact.iter_artifactkit_payloads(fh)) if name == "artifactkit" else getattr(pe, name)(fh)
+                finally:
+                    resource.setrlimit(resource.RLIMIT_AS, (soft, hard))
             else:
                 res = getattr(pe, ep)(io.BytesIO(data))
         ctx.maximum("back_edges_per_byte_in_one_activation", round(b.maxact / max(1, len(data)), 3))
@@ -129,6 +145,8 @@ def call_entry(ep, data, mode, ctx):
             os.unlink(tmp)
     # result-type contract
     ok = True
+    if ep.endswith(":file"):
+        ep = ep[: -len(":file")]
     if ep in ("from_bytes", "from_file", "from_path"):
         ok = isinstance(res, beacon.BeaconConfig) and isinstance(res.config_block, bytes) and isinstance(res.settings_tuple, tuple)
     elif ep == "xordecode":
@@ -473,6 +491,17 @@ def run_shard(shard, ctx):
                 struct.pack_into("<H", d, lf + 6, nsec)
                 for ep in ("find_compile_stamps", "find_stage_prepend_append", "from_bytes"):
                     check_case({"data": bytes(d), "seed_kind": "crafted-pe", "fault": f"NumberOfSections={nsec}", "calls": [(ep, "default")]}, ctx)
+        # claimed sizes that only a regular file takes at face value
+        for arch in ("x86", "x64"):
+            img, info = P.build_pe(rng, arch=arch, nsec=2)
+            d = bytearray(img[: info["lfanew"] + 24 + (224 if arch == "x86" else 240)]) + b"\xff" * 260000
+            for nsec in (4095, 4096, 5000, 0xFFFF):
+                struct.pack_into("<H", d, info["lfanew"] + 6, nsec)
+                for ep in ("find_stage_prepend_append:file", "find_compile_stamps:file", "find_magic_mz:file"):
+                    check_case({"data": bytes(d), "seed_kind": "crafted-pe", "fault": f"NumberOfSections={nsec},SizeOfRawData=ffffffff,regular file", "calls": [(ep, "default")]}, ctx)
+        for size in (0xFFFFFFFF, 0x80000000, 0x7FFFFFFF):
+            data = struct.pack("<II", 16, size) + b"KEY!" + b"hints..." + b"abc"
+            check_case({"data": data, "seed_kind": "crafted-artifactkit", "fault": f"size={size:#x},regular file", "calls": [("artifactkit:file", "default")]}, ctx)
         # User-Agent never terminated, inside an extractable block
         blk = tlv.short(1, 8) + tlv.ptr(9, bytes(range(1, 129)))
         check_case({"data": P.rx1(blk, 0x2E), "seed_kind": "crafted-useragent", "fault": "ua-unterminated", "calls": [("from_bytes", "default"), ("from_path", "default")]}, ctx)
